@@ -127,11 +127,67 @@ EXTRA_NAMES = ("go.now", "go.", ".go", "finish.x", "back.go_back", "go!", "go*",
                "activate_initial_state", "bind_events_to", "start_value", "A", "B", "C", "name")
 
 
+PROBE_FX = {"n": 0, "other": None}
+
+
+def _fx(*_a, **_k):
+    PROBE_FX["n"] += 1
+    return "fx"
+
+
+class _Descr:
+    """non-data descriptor with an effect on every read"""
+
+    def __get__(self, obj, owner=None):
+        if obj is not None:
+            PROBE_FX["n"] += 1
+        return _fx
+
+
+def _raising(self):
+    PROBE_FX["n"] += 1
+    raise RuntimeError("property evaluated")
+
+
+def probe_extra_ns():
+    """Attributes of the machine that are not events: reading or calling any of them through
+    send() would be an effect (counted in PROBE_FX)."""
+    import functools
+    return {
+        "report": property(lambda self: _fx()),
+        "failing_report": property(_raising),
+        "helper": lambda self, *a, **k: _fx(),
+        "helper_cm": classmethod(lambda cls, *a, **k: _fx()),
+        "helper_sm": staticmethod(_fx),
+        "helper_partial": functools.partial(_fx),
+        "lazy_thing": _Descr(),
+    }
+
+
+def attach_foreign_trigger(sm):
+    """Another machine's triggers bound onto this machine's instance (bind_events_to): `work` is
+    an attribute of `sm` that is a trigger - of the other machine, not an event of this one."""
+    from statemachine import State, StateMachine
+
+    class Worker(StateMachine):
+        idle = State(initial=True)
+        busy = State()
+        work = idle.to(busy) | busy.to(idle)
+
+    other = Worker()
+    other.bind_events_to(sm)
+    PROBE_FX["other"] = other
+    return other
+
+
 def snapshot(p):
     sm = p.impl.sm
     eng = sm._engine
+    other = PROBE_FX["other"]
     return (
-        repr(getattr(sm.model, "state", None)), id(sm.model), tuple(sorted(sm.__dict__)),
+        PROBE_FX["n"], other.current_state_value if other is not None else None,
+        repr(getattr(sm.model, "state", None)), id(sm.model),
+        tuple(sorted(k[:] + "" for k in sm.__dict__)),
         tuple(id(x) for x in sm._listeners), len(eng._external_queue), repr(eng._processing),
         p.impl.env.seq, id(sm._engine), sm.allow_event_without_transition,
         tuple(sorted(vars(sm.model))) if hasattr(sm.model, "__dict__") else (),
@@ -141,7 +197,7 @@ def snapshot(p):
 
 def probe(res, asyn, cfg):
     m = probe_machine(asyn)
-    built = build(m)
+    built = build(m, extra_ns=probe_extra_ns())
     declared = set(m.all_events())
     p = Pair(built, cfg)
     r = p.construct()
@@ -150,7 +206,9 @@ def probe(res, asyn, cfg):
     if r:
         res.violation({"category": "construct"}, {"probe": True, "cfg": list(cfg)}, r)
         return
-    names = sorted(set(dir(p.impl.sm)) | set(EXTRA_NAMES) | {s.id for s in m.states})
+    attach_foreign_trigger(p.impl.sm)
+    names = sorted({n[:] + "" for n in dir(p.impl.sm)} | set(EXTRA_NAMES) |
+                   {s.id for s in m.states} | {"work"})      # plain str (dir() may list triggers)
     res.stats["probe_names"] = max(res.stats["probe_names"], len(names))
     for st in ("A", "B", "C"):
         for nm in names:
@@ -173,6 +231,7 @@ def probe(res, asyn, cfg):
                 p.construct()
                 if asyn:
                     p.activate()
+                attach_foreign_trigger(p.impl.sm)
         res.stats["states"] += 1
 
 
@@ -235,11 +294,12 @@ def replay(sc):
     cfg = Cfg(*sc["cfg"])
     if sc.get("probe"):
         m = probe_machine(sc.get("asyn", False))
-        built = build(m)
+        built = build(m, extra_ns=probe_extra_ns())
         p = Pair(built, cfg)
         p.construct()
         if cfg.engine == "async":
             p.activate()
+        attach_foreign_trigger(p.impl.sm)
         r = p.install(sc["state"])
         before = snapshot(p)
         r = r or p.send(sc["name"], {"g1": True})
